@@ -33,7 +33,7 @@ ASSUMPTIONS = ['rename maps are {str: str} (what the choice editor sends); filte
                'formula results that depend on X and summary tables keyed on X legitimately change and are not judged',
                'widgetOptions are documented as not touched by this action, so they are part of "nothing else"']
 BUDGET = {'quick': dict(examples=1000, shards=8, max_seconds=50),
-          'thorough': dict(examples=10000, shards=16, max_seconds=420)}
+          'thorough': dict(examples=10000, shards=16, max_seconds=1800)}
 
 POOL = ['a', 'b', 'c', 'dd', '', 'zz', 'e', ' a', 'A']
 FPOOL = POOL + [1, None, True, 2.5, 'b', 'a']
